@@ -4,6 +4,7 @@ import (
 	"fmt"
 	"go/ast"
 	"go/constant"
+	"regexp"
 	"sort"
 	"strings"
 
@@ -95,6 +96,93 @@ func builderPairing(c *Ctx, rule string, only ...string) {
 				as = append(as, nospace(a))
 			}
 			emits = append(emits, emit{strings.TrimSpace(f), as})
+			return true
+		})
+		// (0) nil guard: `if <param> == nil { b.writelnf("nil,"); return }` is the first statement (writeRule: plain return)
+		if len(fd.Body.List) > 0 {
+			is, ok := fd.Body.List[0].(*ast.IfStmt)
+			okGuard := false
+			if ok && is.Else == nil {
+				cond := nospace(is.Cond)
+				var body []string
+				for _, st := range is.Body.List {
+					switch x := st.(type) {
+					case *ast.ExprStmt:
+						body = append(body, nospace(x.X))
+					case *ast.ReturnStmt:
+						body = append(body, "return")
+					}
+				}
+				bs := strings.Join(body, ";")
+				if fn == "writeRule" {
+					okGuard = cond == param+"==nil||"+param+".Name==nil" && bs == "return"
+				} else {
+					okGuard = cond == param+"==nil" && bs == `b.writelnf("nil,");return`
+				}
+				if !okGuard {
+					bad = append(bad, "nil guard is `if "+cond+" { "+bs+" }`")
+				}
+			} else {
+				bad = append(bad, "no nil guard as first statement")
+			}
+		}
+		// (0b) every condition around an emission is one of the sanctioned forms
+		for _, ce := range callsIn(fd.Body) {
+			if cn := callName(ce); cn != "b.writelnf" && cn != "b.writef" && cn != "b.writeExpr" {
+				continue
+			}
+			if len(fd.Body.List) > 0 && contains(fd.Body.List[0], ce.Pos()) {
+				continue // the nil guard's own emission
+			}
+			for _, gd := range guardsOf(fd.Body, ce.Pos()) {
+				if !sanctionedEmissionGuard(gd, param) {
+					bad = append(bad, "emission "+abbreviate(nospace(ce))+" is conditional on `"+gd+"`, which is not a presence test of the emitted field, a builder flag or the case-folding flag")
+				}
+			}
+		}
+		// (0c) list-valued keys emit one element per iteration of their loop
+		ast.Inspect(fd.Body, func(n ast.Node) bool {
+			rs, ok := n.(*ast.RangeStmt)
+			if !ok || rs.Value == nil {
+				return true
+			}
+			v := nospace(rs.Value)
+			emitsElem := func(b ast.Node) bool {
+				for _, ce := range callsIn(b) {
+					cn := callName(ce)
+					if cn == "b.writeExpr" && len(ce.Args) == 1 && nospace(ce.Args[0]) == v {
+						return true
+					}
+					if (cn == "b.writef" || cn == "b.writelnf") && len(ce.Args) == 2 {
+						a := nospace(ce.Args[1])
+						if a == v || a == "unicode.ToLower("+v+")" {
+							return true
+						}
+					}
+				}
+				return false
+			}
+			okLoop := true
+			// every top-level statement path of the loop body must emit: a plain call, or an if/else whose arms both emit
+			emitted := false
+			for _, st := range rs.Body.List {
+				switch x := st.(type) {
+				case *ast.ExprStmt:
+					if emitsElem(x) {
+						emitted = true
+					}
+				case *ast.IfStmt:
+					eb, hasElse := x.Else.(*ast.BlockStmt)
+					if emitsElem(x.Body) && hasElse && emitsElem(eb) {
+						emitted = true
+					} else if emitsElem(x.Body) || (hasElse && emitsElem(eb)) {
+						okLoop = false
+					}
+				}
+			}
+			if !emitted || !okLoop {
+				bad = append(bad, "the loop over "+nospace(rs.X)+" does not emit its element "+v+" on every path")
+			}
 			return true
 		})
 		// (1) node type name
@@ -189,4 +277,19 @@ func builderPairing(c *Ctx, rule string, only ...string) {
 		sort.Strings(bad)
 		r.Check(len(bad) == 0, rule, "G.builder."+fn+":emitted-fields", "", g.Where(fd.Pos()), fmt.Sprintf("node type, position triple and %d key/value pairings as in the alias table", len(emittedAlias[fn])), strings.Join(bad, "; "))
 	}
+}
+
+// sanctionedEmissionGuard: conditions allowed around an emission in a builder writer.
+func sanctionedEmissionGuard(gd, param string) bool {
+	switch gd {
+	case "b.haveLeftRecursion", "b.basicLatinLookupTable", param + ".IgnoreCase", "!(" + param + ".IgnoreCase)":
+		return true
+	}
+	if m := regexp.MustCompile(`^len\(` + regexp.QuoteMeta(param) + `\.\w+\)>0$`).MatchString(gd); m {
+		return true
+	}
+	if m := regexp.MustCompile(`^` + regexp.QuoteMeta(param) + `\.(\w+)!=nil&&` + regexp.QuoteMeta(param) + `\.(\w+)\.Val!=""$`).FindStringSubmatch(gd); m != nil && m[1] == m[2] {
+		return true
+	}
+	return false
 }
